@@ -177,7 +177,7 @@ let run_tx (a : string list) : string =
   let toks = List.map (fun x -> if x = "{" then TO else if x = "}" then TC else TW (n_of_int (int_of_string x))) (items (field "t:")) in
   if load_c cvs bs toks then "err" else "ok"
 
-(* ---- binary state reader: TB n:<number of variables> b:<kwhex>.<typehex>.<kind>.<nvar>,.. d:<hex bytes> *)
+(* ---- binary state reader: TB n:<number of variables> b:<kwhex>.<typehex>.<kind>.<nvar>[.<k<keyhex>|o<count of 8-byte objects> joined by +>],.. d:<hex bytes> *)
 let run_tb (a : string list) : string =
   let field p = List.fold_left (fun acc t ->
       if String.length t >= String.length p && String.sub t 0 (String.length p) = p
@@ -186,8 +186,18 @@ let run_tb (a : string list) : string =
   let ncv = nat_of_int (int_of_string (field "n:")) in
   let bs = List.filter_map (fun x ->
       match String.split_on_char '.' x with
-      | [kw; ty; kd; nv] -> Some { bb_kw = unhex kw; bb_type = unhex ty; bb_kind = nat_of_int (int_of_string kd);
-                                   bb_nvar = nat_of_int (int_of_string nv) }
+      | kw :: ty :: kd :: nv :: rest ->
+        let fields = match rest with
+          | [] -> []
+          | f :: _ -> List.concat (List.map (fun e ->
+              if String.length e < 2 then [] else
+                let v = String.sub e 1 (String.length e - 1) in
+                match e.[0] with
+                | 'k' -> [FKey (unhex v)]
+                | 'o' -> List.init (int_of_string v) (fun _ -> FObj (n_of_int 8))
+                | _ -> []) (String.split_on_char '+' f)) in
+        Some { bb_kw = unhex kw; bb_type = unhex ty; bb_kind = nat_of_int (int_of_string kd);
+               bb_nvar = nat_of_int (int_of_string nv); bb_fields = fields }
       | _ -> None) (items (field "b:")) in
   if load_bin_c ncv bs (unhex (field "d:")) then "err" else "ok"
 
